@@ -116,10 +116,19 @@ class Geometry:
                 # In the case, a fixed (scalar) depth had been provided, the base class can be
                 # utilized. Otherwise, a more involved reshape of the effective volume is
                 # required.
+                # NOTE: Resize one axis at a time. INTER_AREA is conservative for pure
+                # down-sampling and for pure (integer) up-sampling, but not if one axis
+                # is refined while the other one is coarsened.
+                rows, cols = fetched_data.shape[:2]
+                resized_cols = cv2.resize(
+                    self.voxel_volume,
+                    (cols, self.voxel_volume.shape[0]),
+                    interpolation=cv2.INTER_AREA,  # conservative.
+                )
                 self.cached_voxel_volume = (
                     cv2.resize(
-                        self.voxel_volume,
-                        tuple(reversed(fetched_data.shape[:2])),
+                        resized_cols,
+                        (cols, rows),
                         interpolation=cv2.INTER_AREA,  # conservative.
                     )
                     * scaling
